@@ -111,7 +111,7 @@ def mxbuild(variant):
             os.rename(tmp, out)
         finally:
             shutil.rmtree(scratch, ignore_errors=True)
-        prune('lib-' + variant, keep=2)
+        prune('lib-' + variant, keep=16)
         log('built matrixssl variant=%s hash=%s in %.1fs' % (variant, _hash_memo, time.time() - t0))
     return out
 
@@ -185,7 +185,7 @@ def build_target(t):
             raise SystemExit('BUILD-ERROR: linking %s failed (harness build failure, not a property verdict)' % t['name'])
         shutil.rmtree(outdir, ignore_errors=True)
         os.rename(tmp, outdir)
-        prune('bin-' + t['name'], keep=2)
+        prune('bin-' + t['name'], keep=4)
         log('built target %s in %.1fs' % (t['name'], time.time() - t0))
     return exe
 
@@ -253,6 +253,8 @@ def run_tape_target(t, exe, tier, seed, workdir, known_sigs, budget_scale=1.0):
         cmd = [exe, '--seed', str(seed), '--shard', str(sh), '--cases', str(max(1, int(cfg['cases'] // shards))),
                '--secs', str(cfg['secs'] * budget_scale), '--out', out, '--known', known_file,
                '--shrink-secs', str(cfg.get('shrink_secs', 45))] + t.get('args', [])
+        if t.get('enumerate'):
+            cmd += ['--enumerate', '--nshards', str(shards), '--enum-stride', str(cfg.get('stride', 1))]
         lg = open(out + '.log', 'w')
         procs.append((sh, out, subprocess.Popen(cmd, stdout=lg, stderr=subprocess.STDOUT, env=san_env(t.get('env')), cwd=workdir), lg))
     results = []
